@@ -137,7 +137,8 @@ def task_component(comp, frame, k, reduced, part, nparts):
 SCHEMES = ["http", "https", "x", "a+b.c-d", ""]
 USERINFOS = ["", "u@", "u:p@", "u:@", ":p@", "%C3%A9:%40@", "a!$&'()*+,;=:a!$&'()*+,;=@"]
 HOSTS = ["h.com", "a-b.c_d~e", "xn--9ca.com", "127.0.0.1", "[::1]", "[2001:db8::ff]", "[fe80::1%eth0]", "localhost.", "a!$&'()*+,;=b", "0",
-         "1.2.3.04", "010.0.0.1", "0x7f.0.0.1", "1.2.3", "256.1.1.1", "1.2.3.4.5"]   # numeric-looking reg-names that are not IPv4address
+         "1.2.3.04", "010.0.0.1", "0x7f.0.0.1", "1.2.3", "256.1.1.1", "1.2.3.4.5",
+         "v1.x", "va.gov", "[v1.x]", "[v1.a:b]"]   # reg-names that look like an IPvFuture literal without brackets, and real (bracketed) ones   # numeric-looking reg-names that are not IPv4address
 PORTS = ["", ":0", ":81", ":8080", ":65535", ":80", ":443"]
 PATHS_AUTH = ["", "/", "/p", "/a/b/", "/a//b", "/%2F%20", "/a.b/..c/.d", "/;p=1/@:"]
 PATHS_NOAUTH = ["", "/", "/p", "p", "p/q/", "./p", "../p/..", "/a//b", "%2F", "p:q/r"]
